@@ -118,7 +118,10 @@ def prove(assumptions, goal, timeout_ms=None, use_cvc5=True, cross_check=False, 
                     return _finish(out, assumptions, goal, use_cvc5, cross_check)
                 continue
             s0 = z3.SimpleSolver()
-            s0.set("timeout", int(min(timeout_ms, 4000) * tf))
+            # the first (small-budget) attempt has a flat 3 s wall-clock cap: z3 does not poll rlimit inside its nla
+            # loops, and the attempts that follow carry the stretched budgets, so a miss here never changes a verdict
+            first_small = len(budgets) > 1 and bud == budgets[0]
+            s0.set("timeout", 3000 if first_small else int(min(timeout_ms, 4000) * tf))
             s0.set("rlimit", bud)
             for a in rel:
                 s0.add(a)
